@@ -33,7 +33,7 @@ Lemma shape_wake (s s' : state) w : step_shape s s' (Wake w) ->
   nextID s' = nextID s /\ clk s' = w.
 Proof.
   inversion 1 as [| | | |? Hd| | | | | |]; subst; [auto 10|].
-  destruct Hd as [Hd|[Hd|[Hd|Hd]]]; discriminate Hd.
+  destruct Hd as [Hd|[Hd|[Hd|[Hd|[[? Hd]|Hd]]]]]; discriminate Hd.
 Qed.
 
 Lemma shape_start (s s' : state) t : step_shape s s' (Start t) ->
@@ -42,7 +42,7 @@ Lemma shape_start (s s' : state) t : step_shape s s' (Start t) ->
   starts s' = starts s /\ nextID s' = nextID s /\ clk s' = t.
 Proof.
   inversion 1 as [| | | |? Hd| | | | | |]; subst; [auto 10|].
-  destruct Hd as [Hd|[Hd|[Hd|Hd]]]; discriminate Hd.
+  destruct Hd as [Hd|[Hd|[Hd|[Hd|[[? Hd]|Hd]]]]]; discriminate Hd.
 Qed.
 
 Lemma split3 h1 ev h2 (s0 s1 s2 : state) :
@@ -361,6 +361,16 @@ Qed.
 Definition absent (id : Z) (s : state) : Prop :=
   id <= nextID s /\ forall e, In e (entries s) -> eid e <> id.
 
+Lemma absent_of_cond id (s : state) :
+  (id <=? nextID s) && negb (existsb (fun e => eid e =? id) (entries s)) = true -> absent id s.
+Proof.
+  intro H. apply andb_true_iff in H as [H1 H2]. apply Z.leb_le in H1. apply negb_true_iff in H2.
+  split; [exact H1|]. intros e Hin Heq.
+  assert (Ht : existsb (fun e => eid e =? id) (entries s) = true).
+  { apply existsb_exists. exists e. split; [exact Hin|apply Z.eqb_eq; exact Heq]. }
+  congruence.
+Qed.
+
 Lemma absent_step id (s s' : state) ev o : inv1 s -> absent id s -> step s ev = Some (s', o) ->
   absent id s' /\ exists new, starts s' = starts s ++ new /\ of_id id new = [].
 Proof.
@@ -434,7 +444,7 @@ Proof.
   pose proof (shape _ next _ _ _ _ H1 Hs) as Hsh.
   assert (HabE : absent id sE /\ starts sE = starts s1).
   { destruct Hev as [-> |[t ->]]; inversion Hsh as [| | | |? Hd| | | | | |]; subst.
-    - destruct Hd as [Hd|[Hd|[Hd|Hd]]]; discriminate Hd.
+    - destruct Hd as [Hd|[Hd|[Hd|[Hd|[[? Hd]|Hd]]]]]; discriminate Hd.
     - split; [split; [lia|]|assumption].
       intros e Hin. match goal with H : entries sE = _ |- _ => rewrite H in Hin end.
       apply filter_In in Hin as [_ Hne]. apply negb_true_iff in Hne. apply Z.eqb_neq. exact Hne.
@@ -442,7 +452,7 @@ Proof.
       intros e Hin. match goal with H : entries sE = _ |- _ => rewrite H in Hin end.
       apply -> sort_in in Hin.
       apply filter_In in Hin as [_ Hne]. apply negb_true_iff in Hne. apply Z.eqb_neq. exact Hne.
-    - destruct Hd as [Hd|[Hd|[Hd|Hd]]]; discriminate Hd. }
+    - destruct Hd as [Hd|[Hd|[Hd|[Hd|[[? Hd]|Hd]]]]]; discriminate Hd. }
   destruct HabE as [HabE HstE].
   destruct (absent_run id h2 sE s2 (inv1_step _ next _ _ _ _ H1 Hs) HabE HwE HrE) as [[_ Hab2] [new [Hst Hof]]].
   exists new. rewrite <- HstE. auto.
@@ -459,6 +469,7 @@ Proof.
     { destruct ev; cbn [is_start] in Hev; try discriminate Hev;
         cbn [Model.step] in Hs; rewrite ?Hr in Hs; cbn [negb] in Hs; try discriminate Hs;
         try (destruct (outstanding s <=? 0); [discriminate Hs|]);
+        try (destruct (_ && _); [|discriminate Hs]);
         inversion Hs; subst; cbn [starts running]; auto. }
     destruct H1 as [Hst1 Hr1]. destruct (IH s1 Hr1 Hns Hrun) as [Hst Hr']. rewrite Hst, Hst1. auto.
 Qed.
@@ -475,6 +486,37 @@ Proof.
   { cbn [Model.step] in Hs. destruct (running s1); cbn [negb] in Hs; [|discriminate Hs].
     inversion Hs; subst. cbn [starts running]. auto. }
   destruct HE as [HstE HrE']. destruct (idle_run _ _ _ HrE' Hns HrE) as [Hst _]. congruence.
+Qed.
+
+(* the same, stated at the moment the CALL RETURNS to its caller *)
+Theorem remove_returned_clean : forall t0 h1 id h2 s1 s2,
+  wf (init t0) (h1 ++ RemoveRet id :: h2) = true ->
+  run (init t0) h1 = Some s1 -> run (init t0) (h1 ++ RemoveRet id :: h2) = Some s2 ->
+  exists new, starts s2 = starts s1 ++ new /\ of_id id new = [] /\
+              forall e, In e (entries s2) -> eid e <> id.
+Proof.
+  intros t0 h1 id h2 s1 s2 Hw Hr1 Hr2.
+  destruct (split3 _ _ _ _ _ _ Hw Hr1 Hr2) as [Hw1 [sE [o [Henv [Hs [HwE HrE]]]]]].
+  destruct (reach _ _ _ Hw1 Hr1) as [H1 _].
+  cbn [Model.step] in Hs.
+  destruct ((id <=? nextID s1) && negb (existsb (fun e => eid e =? id) (entries s1))) eqn:Hc;
+    [|discriminate Hs].
+  inversion Hs; subst sE o; clear Hs.
+  destruct (absent_run id h2 s1 s2 H1 (absent_of_cond _ _ Hc) HwE HrE) as [[_ Hab2] [new [Hst Hof]]].
+  exists new. auto.
+Qed.
+
+Theorem stop_returned_clean : forall t0 h1 h2 s1 s2,
+  wf (init t0) (h1 ++ StopRet :: h2) = true ->
+  existsb is_start h2 = false ->
+  run (init t0) h1 = Some s1 -> run (init t0) (h1 ++ StopRet :: h2) = Some s2 ->
+  starts s2 = starts s1.
+Proof.
+  intros t0 h1 h2 s1 s2 Hw Hns Hr1 Hr2.
+  destruct (split3 _ _ _ _ _ _ Hw Hr1 Hr2) as [Hw1 [sE [o [Henv [Hs [HwE HrE]]]]]].
+  cbn [Model.step] in Hs. destruct (running s1) eqn:Hrun; [discriminate Hs|].
+  inversion Hs; subst sE o; clear Hs.
+  destruct (idle_run _ _ _ Hrun Hns HrE) as [Hst _]. exact Hst.
 Qed.
 
 (* --- Entries is exact --------------------------------------------------------------------- *)
@@ -522,7 +564,7 @@ Proof.
                     |Hr0 Hr' Ht He Hst Hid Hc Ho Hcx
                     |Hpos Hr' Ht He Hst Hid Hc Ho Hcx
                     |c Hr' Ht He Hst Hid Hc Ho Hcx];
-      try (destruct Hd as [-> |[-> |[-> | ->]]]); cbn [filter is_jobret length]; rewrite ?Ho, ?Hst;
+      try (destruct Hd as [-> |[-> |[-> |[-> |[[? ->]| ->]]]]]); cbn [filter is_jobret length]; rewrite ?Ho, ?Hst;
       try lia.
     rewrite app_length, map_length. lia.
 Qed.
@@ -778,7 +820,7 @@ Proof.
                   |Hr Hr' Ht He Hst Hid Hc Ho Hcx
                   |Hpos Hr' Ht He Hst Hid Hc Ho Hcx
                   |c Hr' Ht He Hst Hid Hc Ho Hcx];
-    try (destruct Hd as [->|[->|[->| ->]]]); cbn [wake_rec map efire]; rewrite ?Hst, ?app_nil_r;
+    try (destruct Hd as [->|[->|[->|[->|[[? ->]| ->]]]]]); cbn [wake_rec map efire]; rewrite ?Hst, ?app_nil_r;
     try (split; [|reflexivity]); rewrite ?He.
   - (* Start *)
     intros e' Hin Heq. apply -> sort_in in Hin. apply in_map_iff in Hin as [e1 [<- Hin]].
@@ -799,6 +841,8 @@ Proof.
   - (* Removed *)
     intros e' Hin Heq. apply -> sort_in in Hin. apply filter_In in Hin as [Hin _].
     rewrite (Hsame e' Hin Heq). auto.
+  - intros e' Hin Heq. rewrite (Hsame e' Hin Heq). auto.
+  - intros e' Hin Heq. rewrite (Hsame e' Hin Heq). auto.
   - intros e' Hin Heq. rewrite (Hsame e' Hin Heq). auto.
   - intros e' Hin Heq. rewrite (Hsame e' Hin Heq). auto.
   - intros e' Hin Heq. rewrite (Hsame e' Hin Heq). auto.
@@ -865,7 +909,7 @@ Proof.
                id = nextID s1 + 1).
   { destruct ev; cbn [birth] in Hb; try discriminate Hb; inversion Hb; subst; clear Hb;
       inversion Hsh as [| | | |? Hd| | | | | |]; subst;
-      try (destruct Hd as [Hd|[Hd|[Hd|Hd]]]; discriminate Hd); cbn [fst snd].
+      try (destruct Hd as [Hd|[Hd|[Hd|[Hd|[[? Hd]|Hd]]]]]; discriminate Hd); cbn [fst snd].
     - split; [|auto]. match goal with H : entries sE = _ |- _ => rewrite H end.
       apply sort_in. apply in_or_app. right. left. reflexivity.
     - split; [|auto]. match goal with H : entries sE = _ |- _ => rewrite H end.
@@ -882,7 +926,8 @@ Qed.
 (* --- the model meets the specification ----------------------------------------------------- *)
 Definition rel (s : state) (R : rstate sched) : Prop :=
   Permutation (entries s) (rents R) /\ rrun R = running s /\ rout R = outstanding s /\
-  rctx R = ctxs s.
+  rctx R = ctxs s /\ (forall i, In i (rgone R) -> absent i s) /\
+  (rhalt R = true -> running s = false).
 
 Lemma fresh_rents (s : state) (R : rstate sched) : inv1 s -> Permutation (entries s) (rents R) ->
   ~ In (nextID s + 1) (map eid (rents R)).
@@ -891,97 +936,143 @@ Proof.
   apply in_map_iff in Hin as [e [Heq Hin]]. pose proof (i1_ids _ _ Hi e Hin). lia.
 Qed.
 
+Lemma snap_not_gone (s : state) (R : rstate sched) l i n p :
+  (forall i, In i (rgone R) -> absent i s) -> OSnap (snapshot_of (entries s)) = OSnap l ->
+  In (i, n, p) l -> ~ In i (rgone R).
+Proof.
+  intros Hgone Heq Hin Hg. inversion Heq; subst l. unfold snapshot_of in Hin.
+  apply in_map_iff in Hin as [e [He Hin]]. inversion He; subst.
+  exact (proj2 (Hgone _ Hg) e Hin eq_refl).
+Qed.
+
 Lemma sim_step (s s' : state) ev o R : inv1 s -> rel s R -> env_ok s ev = true ->
   step s ev = Some (s', o) ->
   spec_obs R (ev, o, jobs_of ev o) /\ rel s' (rstep next R (ev, o, jobs_of ev o)).
 Proof.
-  intros Hi [HP [Hrr [Hro Hrc]]] Henv Hs. unfold rel.
+  intros Hi [HP [Hrr [Hro [Hrc [Hgone Hhalt]]]]] Henv Hs. unfold rel.
+  assert (Hgone' : forall i, In i (rgone R) -> absent i s').
+  { intros i Hi_. exact (proj1 (absent_step _ _ _ _ _ Hi (Hgone i Hi_) Hs)). }
   destruct ev; cbn [Model.step] in Hs; destruct (running s) eqn:Hr; cbn [negb] in Hs;
     try discriminate Hs.
   - (* Start *)
     inversion Hs; subst s' o; clear Hs.
-    cbn [spec_obs rstep jobs_of arm entries running outstanding ctxs rents rrun rout rctx].
-    split; [reflexivity|]. split; [|auto].
+    cbn [spec_obs rstep jobs_of arm entries running outstanding ctxs rents rrun rout rctx rgone rhalt].
+    split; [reflexivity|]. split; [|split; [reflexivity|split; [exact Hro|split; [exact Hrc|split; [exact Hgone'|discriminate]]]]].
     eapply perm_trans; [apply sort_perm|]. apply (Permutation_map (restart next t)). exact HP.
   - (* Wake *)
     destruct (timer s) eqn:Htm; [|discriminate Hs].
     rewrite (wake_loop_sorted _ next w (entries s) (proj1 (i1_run _ _ Hi Hr))) in Hs.
     inversion Hs; subst s' o; clear Hs.
-    cbn [spec_obs rstep jobs_of arm entries running outstanding ctxs rents rrun rout rctx].
-    unfold due. rewrite Hrr. rewrite !map_map. cbn [fst snd]. split; [split|].
+    cbn [spec_obs rstep jobs_of arm entries running outstanding ctxs rents rrun rout rctx rgone rhalt].
+    unfold due. rewrite Hrr. rewrite !map_map. cbn [fst snd]. split; [split; [|split; [|split]]|].
     + unfold rrec. cbn [fst]. apply (Permutation_map eid). apply Permutation_filter. exact HP.
     + intros i c Hin. apply in_map_iff in Hin as [e [Heq Hin]].
       unfold rrec in Heq. cbn [fst] in Heq. inversion Heq; subst.
       apply filter_In in Hin as [Hin Hd]. destruct (due_fire _ next _ _ Hd) as [_ [Hn Hle]].
       exists e, (act sched e). split; [eapply Permutation_in; eassumption|auto].
-    + split; [|split; [reflexivity|split; [|exact Hrc]]].
+    + intros i c Hin Hg. apply in_map_iff in Hin as [e [Heq Hin]].
+      unfold rrec in Heq. cbn [fst] in Heq. inversion Heq; subst.
+      apply filter_In in Hin as [Hin _]. exact (proj2 (Hgone _ Hg) e Hin eq_refl).
+    + intro Hh. specialize (Hhalt Hh). congruence.
+    + split; [|split; [reflexivity|split; [|split; [exact Hrc|split; [exact Hgone'|]]]]].
       * eapply perm_trans; [apply sort_perm|]. apply Permutation_map. exact HP.
       * rewrite !map_length. rewrite Hro. reflexivity.
+      * intro Hh. specialize (Hhalt Hh). congruence.
   - (* Added *)
     inversion Hs; subst s' o; clear Hs.
-    cbn [spec_obs rstep jobs_of arm entries running outstanding ctxs rents rrun rout rctx].
+    cbn [spec_obs rstep jobs_of arm entries running outstanding ctxs rents rrun rout rctx rgone rhalt].
     split.
     + split; [reflexivity|]. eexists _, _. split; [reflexivity|]. apply fresh_rents; assumption.
-    + split; [|auto]. eapply perm_trans; [apply sort_perm|]. apply Permutation_app_tail. exact HP.
+    + split; [|split; [exact Hrr|split; [exact Hro|split; [exact Hrc|split; [exact Hgone'|]]]]].
+      * eapply perm_trans; [apply sort_perm|]. apply Permutation_app_tail. exact HP.
+      * intro Hh. specialize (Hhalt Hh). congruence.
   - (* Removed *)
     inversion Hs; subst s' o; clear Hs.
-    cbn [spec_obs rstep jobs_of arm entries running outstanding ctxs rents rrun rout rctx].
-    split; [reflexivity|]. split; [|auto].
-    eapply perm_trans; [apply sort_perm|]. unfold remove_entry. apply Permutation_filter. exact HP.
+    cbn [spec_obs rstep jobs_of arm entries running outstanding ctxs rents rrun rout rctx rgone rhalt].
+    split; [reflexivity|].
+    split; [|split; [exact Hrr|split; [exact Hro|split; [exact Hrc|split; [exact Hgone'|]]]]].
+    + eapply perm_trans; [apply sort_perm|]. unfold remove_entry. apply Permutation_filter. exact HP.
+    + intro Hh. specialize (Hhalt Hh). congruence.
   - (* Snapshot *)
-    inversion Hs; subst s' o; clear Hs. cbn [spec_obs rstep jobs_of]. split; [|rewrite Hr; auto].
-    split; [reflexivity|]. eexists. split; [reflexivity|]. unfold snapshot_of.
-    apply Permutation_map. exact HP.
+    inversion Hs; subst s' o; clear Hs. cbn [spec_obs rstep jobs_of].
+    split; [|rewrite Hr; auto 10].
+    split; [reflexivity|]. split.
+    + eexists. split; [reflexivity|]. unfold snapshot_of. apply Permutation_map. exact HP.
+    + intros l i n p. apply snap_not_gone. exact Hgone.
   - (* Stop *)
     inversion Hs; subst s' o; clear Hs.
-    cbn [spec_obs rstep jobs_of entries running outstanding ctxs rents rrun rout rctx].
-    rewrite Hro, Hrc. auto.
+    cbn [spec_obs rstep jobs_of entries running outstanding ctxs rents rrun rout rctx rgone rhalt].
+    rewrite Hro, Hrc. auto 10.
   - (* ScheduleIdle *)
     inversion Hs; subst s' o; clear Hs.
-    cbn [spec_obs rstep jobs_of entries running outstanding ctxs rents rrun rout rctx].
+    cbn [spec_obs rstep jobs_of entries running outstanding ctxs rents rrun rout rctx rgone rhalt].
     split.
     + split; [reflexivity|]. eexists. split; [reflexivity|]. apply fresh_rents; assumption.
-    + split; [|auto]. apply Permutation_app_tail. exact HP.
+    + split; [|auto 10]. apply Permutation_app_tail. exact HP.
   - (* RemoveIdle *)
     inversion Hs; subst s' o; clear Hs.
-    cbn [spec_obs rstep jobs_of entries running outstanding ctxs rents rrun rout rctx].
-    split; [reflexivity|]. split; [|auto]. unfold remove_entry. apply Permutation_filter. exact HP.
+    cbn [spec_obs rstep jobs_of entries running outstanding ctxs rents rrun rout rctx rgone rhalt].
+    split; [reflexivity|]. split; [|auto 10]. unfold remove_entry. apply Permutation_filter. exact HP.
   - (* EntriesIdle *)
-    inversion Hs; subst s' o; clear Hs. cbn [spec_obs rstep jobs_of]. split; [|rewrite Hr; auto].
-    split; [reflexivity|]. eexists. split; [reflexivity|]. unfold snapshot_of.
-    apply Permutation_map. exact HP.
+    inversion Hs; subst s' o; clear Hs. cbn [spec_obs rstep jobs_of].
+    split; [|rewrite Hr; auto 10].
+    split; [reflexivity|]. split.
+    + eexists. split; [reflexivity|]. unfold snapshot_of. apply Permutation_map. exact HP.
+    + intros l i n p. apply snap_not_gone. exact Hgone.
   - (* StopIdle *)
     inversion Hs; subst s' o; clear Hs.
-    cbn [spec_obs rstep jobs_of entries running outstanding ctxs rents rrun rout rctx].
-    rewrite Hro, Hrc. auto.
+    cbn [spec_obs rstep jobs_of entries running outstanding ctxs rents rrun rout rctx rgone rhalt].
+    rewrite Hro, Hrc. auto 10.
   - (* StartNoop *)
-    inversion Hs; subst s' o; clear Hs. cbn [spec_obs rstep jobs_of]. rewrite Hr. auto.
+    inversion Hs; subst s' o; clear Hs. cbn [spec_obs rstep jobs_of]. rewrite Hr. auto 10.
   - (* JobRet, running *)
     destruct (outstanding s <=? 0) eqn:Ho; [discriminate Hs|].
     inversion Hs; subst s' o; clear Hs.
-    cbn [spec_obs rstep jobs_of entries running outstanding ctxs rents rrun rout rctx].
-    rewrite Hro, Hrc. auto.
+    cbn [spec_obs rstep jobs_of entries running outstanding ctxs rents rrun rout rctx rgone rhalt].
+    rewrite Hro, Hrc. split; [reflexivity|].
+    split; [exact HP|split; [exact Hrr|split; [reflexivity|split; [reflexivity|split; [exact Hgone'|]]]]].
+    intro Hh. specialize (Hhalt Hh). congruence.
   - (* JobRet, idle *)
     destruct (outstanding s <=? 0) eqn:Ho; [discriminate Hs|].
     inversion Hs; subst s' o; clear Hs.
-    cbn [spec_obs rstep jobs_of entries running outstanding ctxs rents rrun rout rctx].
-    rewrite Hro, Hrc. auto.
+    cbn [spec_obs rstep jobs_of entries running outstanding ctxs rents rrun rout rctx rgone rhalt].
+    rewrite Hro, Hrc. auto 10.
   - (* CtxPoll *)
-    inversion Hs; subst s' o; clear Hs. cbn [spec_obs rstep jobs_of]. rewrite Hrc, Hr. auto.
-  - inversion Hs; subst s' o; clear Hs. cbn [spec_obs rstep jobs_of]. rewrite Hrc, Hr. auto.
+    inversion Hs; subst s' o; clear Hs. cbn [spec_obs rstep jobs_of]. rewrite Hrc, Hr. auto 10.
+  - inversion Hs; subst s' o; clear Hs. cbn [spec_obs rstep jobs_of]. rewrite Hrc, Hr. auto 10.
   - (* Tick, running *)
     inversion Hs; subst s' o; clear Hs.
-    cbn [spec_obs rstep jobs_of entries running outstanding ctxs rents rrun rout rctx].
-    split; [|auto]. split; [reflexivity|]. intros _ e a Hin Hn.
-    cbn [env_ok] in Henv. apply andb_true_iff in Henv as [_ Henv].
-    destruct (i1_run _ _ Hi Hr) as [Hso Htm].
-    apply (Permutation_in _ (Permutation_sym HP)) in Hin.
-    destruct (sorted_head _ _ _ _ Hso Hin Hn) as [T [HT Hle]].
-    rewrite Htm, HT in Henv. apply Z.ltb_lt in Henv. lia.
+    cbn [spec_obs rstep jobs_of entries running outstanding ctxs rents rrun rout rctx rgone rhalt].
+    split.
+    + split; [reflexivity|]. intros _ e a Hin Hn.
+      cbn [env_ok] in Henv. apply andb_true_iff in Henv as [_ Henv].
+      destruct (i1_run _ _ Hi Hr) as [Hso Htm].
+      apply (Permutation_in _ (Permutation_sym HP)) in Hin.
+      destruct (sorted_head _ _ _ _ Hso Hin Hn) as [T [HT Hle]].
+      rewrite Htm, HT in Henv. apply Z.ltb_lt in Henv. lia.
+    + split; [exact HP|split; [exact Hrr|split; [exact Hro|split; [exact Hrc|split; [exact Hgone'|]]]]].
+      intro Hh. specialize (Hhalt Hh). congruence.
   - (* Tick, idle *)
     inversion Hs; subst s' o; clear Hs.
-    cbn [spec_obs rstep jobs_of entries running outstanding ctxs rents rrun rout rctx].
-    split; [|auto]. split; [reflexivity|]. intro Hc. congruence.
+    cbn [spec_obs rstep jobs_of entries running outstanding ctxs rents rrun rout rctx rgone rhalt].
+    split; [|auto 10]. split; [reflexivity|]. intro Hc. congruence.
+  - (* RemoveRet, running *)
+    destruct ((id <=? nextID s) && negb (existsb (fun e => eid e =? id) (entries s))) eqn:Hc;
+      [|discriminate Hs].
+    inversion Hs; subst s' o; clear Hs. cbn [spec_obs rstep jobs_of rents rrun rout rctx rgone rhalt].
+    split; [reflexivity|]. rewrite Hr.
+    split; [exact HP|split; [exact Hrr|split; [exact Hro|split; [exact Hrc|split; [|exact Hhalt]]]]].
+    intros i [<-|Hi_]; [|auto]. apply (absent_of_cond _ _ Hc).
+  - (* RemoveRet, idle *)
+    destruct ((id <=? nextID s) && negb (existsb (fun e => eid e =? id) (entries s))) eqn:Hc;
+      [|discriminate Hs].
+    inversion Hs; subst s' o; clear Hs. cbn [spec_obs rstep jobs_of rents rrun rout rctx rgone rhalt].
+    split; [reflexivity|]. rewrite Hr.
+    split; [exact HP|split; [exact Hrr|split; [exact Hro|split; [exact Hrc|split; [|exact Hhalt]]]]].
+    intros i [<-|Hi_]; [|auto]. apply (absent_of_cond _ _ Hc).
+  - (* StopRet *)
+    inversion Hs; subst s' o; clear Hs. cbn [spec_obs rstep jobs_of rents rrun rout rctx rgone rhalt].
+    rewrite Hr. auto 10.
 Qed.
 
 Lemma sim_run h : forall (s : state) R, inv1 s -> rel s R -> wf s h = true ->
@@ -999,7 +1090,9 @@ Theorem model_meets_spec : forall t0 h, wf (init t0) h = true ->
   spec_ok next (trace next (init t0) h).
 Proof.
   intros t0 h Hw. unfold spec_ok. apply sim_run; [apply inv1_init| |exact Hw].
-  unfold rel. cbn [init rinit entries rents running rrun outstanding rout ctxs rctx]. auto.
+  unfold rel. cbn [init rinit entries rents running rrun outstanding rout ctxs rctx rgone rhalt].
+  split; [apply Permutation_refl|]. split; [reflexivity|]. split; [reflexivity|].
+  split; [reflexivity|]. split; [intros i []|discriminate].
 Qed.
 
 End Proofs.
